@@ -552,6 +552,9 @@ class World:
                 self.net.fired("tcp.stall")
             link.transport._set_stall(step.get("on", True))
 
+    def op_net_stall_next(self, step) -> None:
+        self.net.stall_new_links.append(step["duration"])
+
     def op_net_latency(self, step) -> None:
         self.net.latency = step["latency"]
         link = self.net.current_link()
@@ -611,6 +614,7 @@ class World:
         """End of a fault script: nothing stays armed."""
         self.net.write_faults.clear()
         self.net.fates.clear()
+        self.net.stall_new_links.clear()
 
     def op_noop(self, step) -> None:
         pass
